@@ -69,7 +69,7 @@ var parsers5 = []parser5{
 		Comps: [][]string{nil, {`If-None-Match: "abc"`}, {imsOld}, {`If-None-Match: W/"abc"`, imsOld}, {`If-None-Match: "other"`}}},
 	{Name: "Fresh/If-None-Match", Header: "If-None-Match", Where: "header",
 		Elems: []string{`"abc"`, `W/"abc"`, `"x"`, "*", "abc", `"abc`, "", `w/"ABC"`}, Seps: stdSeps,
-		Comps: [][]string{nil, {imsOld, "Cache-Control: max-age=0"}}},
+		Comps: [][]string{nil, {imsOld, "Cache-Control: max-age=0"}, {"If-Modified-Since: garbage"}}},
 	{Name: "Range", Header: "Range", Where: "header", Prefixes: []string{"bytes=", "BYTES=", "xbytes="},
 		Elems: []string{"0-0", "-1", "5-", "5-2", "a-b", "-", "", "bytes=2-3"}, Seps: stdSeps},
 	{Name: "Accepts/Accept", Header: "Accept", Where: "header",
@@ -171,6 +171,63 @@ func enumSeqs5(p *parser5, f func(seq []int, sep string)) {
 			}
 		}
 	}
+}
+
+// tabSeps5: the separators of the parser with HTAB as the optional whitespace (RFC 9110: OWS = *( SP / HTAB )):
+// every separator that holds spaces with each space turned into a tab, and the first separator
+// character followed by a tab and surrounded by tabs.
+func tabSeps5(p *parser5) []string {
+	var out []string
+	add := func(s string) {
+		for _, x := range out {
+			if x == s {
+				return
+			}
+		}
+		out = append(out, s)
+	}
+	for _, s := range p.Seps {
+		if s != sepNewLine && strings.Contains(s, " ") {
+			add(strings.ReplaceAll(s, " ", "\t"))
+		}
+	}
+	c := p.Seps[0][:1]
+	add(c + "\t")
+	add("\t" + c + "\t")
+	return out
+}
+
+// enumTabSeqs5 calls f for every sequence of 2 (maxLen 2) or 2-3 (maxLen 3) elements and every tab separator.
+func enumTabSeqs5(p *parser5, maxLen int, f func(seq []int, sep string)) {
+	n := len(p.Elems)
+	for _, sep := range tabSeps5(p) {
+		for a := 0; a < n; a++ {
+			for b := 0; b < n; b++ {
+				f([]int{a, b}, sep)
+				if maxLen < 3 {
+					continue
+				}
+				for c := 0; c < n; c++ {
+					f([]int{a, b, c}, sep)
+				}
+			}
+		}
+	}
+}
+
+// f7Long: the configuration (index into cfgsAll) on which family 7 also runs the sequences of 3 elements.
+const f7Long = 0
+
+func f7Rule() string {
+	n2, n3 := 0, 0
+	for _, u := range units5() {
+		p := &parsers5[u.P]
+		k := len(p.Elems)
+		n2 += len(tabSeps5(p)) * k * k
+		n3 += len(tabSeps5(p)) * k * k * k
+	}
+	return fmt.Sprintf("F7 = the grammars of F5 with HTAB as optional whitespace: every separator of a parser that holds spaces with the spaces turned into tabs, and its first separator character followed by / surrounded by a tab; "+
+		"every sequence of 2 elements x every such separator x every unit = %d values x the %d configurations of F5, plus every sequence of 3 elements (%d values) on the default configuration. ", n2, len(cfgsAll), n3)
 }
 
 func seqCount5(p *parser5) int {
